@@ -718,6 +718,12 @@ class FlowParser:
         if not row.include_if:
             return
 
+        # Trivial edges (blank from, no condition) after the first one carry no
+        # information: they come from blank padding cells of the edge columns.
+        row.edges = [
+            edge for i, edge in enumerate(row.edges) if edge != Edge() or i == 0
+        ]
+
         if row.type in ["hard_exit", "loose_exit"]:
             destination_uuid = "HARD_EXIT" if row.type == "hard_exit" else None
             for edge in row.edges:
